@@ -239,6 +239,21 @@ def eval_spec(spec):
                          f"{fam}: element {j} of [a, b, a | b] through one loss object differs from the fresh estimate by {dj:.3e}; "
                          f"loss on its own data {lossf(got)!r} vs {lossf(want)!r} (fresh)")
                     break
+            # the same loss / algorithm objects once more, now for a DIFFERENT tomography of the same type and size (other
+            # tester rotation => other matA): value, gradient and data must all be those of the new experiment
+            qt2, c2, m2_ = L.make_qt(g, kind, spec["sys"], spec["para"], m=spec["m"])
+            true2 = L.true_object(g, kind, c2, m2_, spec["truth"])
+            empi2 = L.exact_data(qt2, true2) if spec["shots"] == "exact" else L.fewshot_data(g, qt2, true2, int(spec["shots"]))
+            r3, _ = L.quiet(est1.calc_estimate, qt2, empi2, lobj1, LOc("identity"), aobj1, aopt1)
+            got2 = np.array(r3.estimated_var, dtype=float)
+            fresh2 = np.array(L.run_lme(qt2, empi2, fam, "pgdb", history=False, **opt)[0].estimated_var, dtype=float)
+            cnt("loss object re-used for a second tomography")
+            f2 = lambda v: ref_loss(fam, qt2, empi2, v)  # noqa
+            d2 = float(np.linalg.norm(got2 - fresh2))
+            if d2 > 1e-7 or f2(got2) - f2(fresh2) > 1e-6 * max(1.0, abs(f2(got2))):
+                viol(f"C11/pgdb/{kind}/stale-model-in-reused-loss-object",
+                     f"{fam}: loss/algorithm objects re-used for a second tomography (same type, other testers): estimate differs "
+                     f"from the fresh-object estimate by {d2:.3e}; loss {f2(got2)!r} vs {f2(fresh2)!r} (fresh)")
         except Exception as e:  # noqa
             viol(f"C11/pgdb/{kind}/raises", f"{fam}: sequence through one loss object: {type(e).__name__}: {str(e)[:200]}")
     # --- optimality certificate
